@@ -45,9 +45,11 @@ extern "C" const char *__tsan_default_options()
 
 namespace vf
 {
-    __attribute__((weak)) void process_init()
+#ifndef VF_HAS_PROCESS_INIT
+    void process_init()
     {
     }
+#endif
 
     namespace rn
     {
